@@ -5,11 +5,23 @@ import "strings"
 // allSpecs is the registry of harnesses per property. Bounds registered here are
 // the ones that run clean (no unwinding failure, no budget hit) on the unchanged tree.
 var allSpecs = []HarnessSpec{
-	{Prop: "C01", Func: "ZZ_C01_Deps", Tag: "shape=0", POR: true, Replay: "native", Twin: true, Params: map[string]int{"shape": 0}},
-	{Prop: "C01", Func: "ZZ_C01_Deps", Tag: "shape=1", POR: true, Replay: "native", Params: map[string]int{"shape": 1}},
-	{Prop: "C01", Func: "ZZ_C01_Deps", Tag: "shape=2", POR: true, Replay: "native", Params: map[string]int{"shape": 2}},
-	{Prop: "C01", Func: "ZZ_C01_Deps", Tag: "shape=3", POR: true, Replay: "native", Params: map[string]int{"shape": 3}},
-	{Prop: "C01", Func: "ZZ_C01_Deps", Tag: "shape=4", POR: true, Replay: "native", Params: map[string]int{"shape": 4}},
+	{Prop: "C01", Func: "ZZ_C01_Deps", Tag: "shape=0", POR: true, Replay: "native", Twin: true, Params: map[string]int{"shape": 0, "maxconc": 1, "__coarse": 1}},
+	{Prop: "C01", Func: "ZZ_C01_Deps", Tag: "shape=1", POR: true, Replay: "native", Params: map[string]int{"shape": 1, "maxconc": 0, "failing": 2, "__coarse": 1}},
+	{Prop: "C01", Func: "ZZ_C01_Deps", Tag: "shape=2", POR: true, Replay: "native", Params: map[string]int{"shape": 2, "maxconc": 0, "failing": 1, "__coarse": 1}},
+	{Prop: "C01", Func: "ZZ_C01_Deps", Tag: "shape=3", POR: true, Replay: "native", Params: map[string]int{"shape": 3, "maxconc": 0, "failing": 1, "__coarse": 1}},
+	{Prop: "C01", Func: "ZZ_C01_Deps", Tag: "shape=4", POR: true, Replay: "native", Params: map[string]int{"shape": 4, "maxconc": 0, "failing": 1, "__coarse": 1}},
+	{Prop: "C02", Func: "ZZ_C02_Order", POR: true, Replay: "native", Twin: true, Params: map[string]int{"maxconc": 0, "__coarse": 1}},
+	{Prop: "C02", Func: "ZZ_C02_Compile", Replay: "native", Twin: true},
+	{Prop: "C03", Func: "ZZ_C03_FailStop", Tag: "shape=0", POR: true, Replay: "native", Twin: true, Params: map[string]int{"shape": 0, "__coarse": 1}},
+	{Prop: "C03", Func: "ZZ_C03_FailStop", Tag: "shape=1", POR: true, Replay: "native", Params: map[string]int{"shape": 1, "__coarse": 1}},
+	{Prop: "C03", Func: "ZZ_C03_FailStop", Tag: "shape=2", POR: true, Replay: "native", Params: map[string]int{"shape": 2, "__coarse": 1}},
+	{Prop: "C03", Func: "ZZ_C03_FailStop", Tag: "shape=3", POR: true, Replay: "native", Params: map[string]int{"shape": 3, "failing": 1, "__coarse": 1}},
+	{Prop: "C06", Func: "ZZ_C06_RunModes", POR: true, Replay: "native", Twin: true, Params: map[string]int{"failing": 1, "__coarse": 1}},
+	{Prop: "C07", Func: "ZZ_C07_Concurrency", Tag: "shape=1", POR: true, Replay: "native", Twin: true, MustReach: []string{"independent-deps-overlap"}, Params: map[string]int{"shape": 1, "maxconc": 2, "__coarse": 1}},
+	{Prop: "C07", Func: "ZZ_C07_Concurrency", Tag: "shape=2", POR: true, Replay: "native", Params: map[string]int{"shape": 2, "maxconc": 2, "__coarse": 1}},
+	{Prop: "C07", Func: "ZZ_C07_CallLimit", Replay: "native", Twin: true},
+	{Prop: "C13", Func: "ZZ_C13_Guards", POR: true, Replay: "native", Twin: true, Params: map[string]int{"__coarse": 1}},
+	{Prop: "C14", Func: "ZZ_C14_Defer", POR: true, Replay: "native", Twin: true, Params: map[string]int{"__coarse": 1}},
 	{Prop: "C08", Pkg: "taskfile/ast", Func: "ZZ_C08_DeepCopy", Replay: "native"},
 	{Prop: "C08", Pkg: "taskfile/ast", Func: "ZZ_C08_Merge", Replay: "native"},
 	{Prop: "C10", Pkg: "", Func: "ZZ_C10_Vars", Replay: "native", Twin: true},
@@ -41,7 +53,7 @@ func specsFor(prop, tier, filter string) []HarnessSpec {
 	return out
 }
 
-var modelCheckingProps = map[string]bool{}
+var modelCheckingProps = map[string]bool{"C01": true, "C02": true, "C03": true, "C06": true, "C07": true, "C13": true, "C14": true, "C17": true, "C18": true, "C09": true}
 
 func propLevel(prop string) string {
 	if modelCheckingProps[prop] {
